@@ -14,7 +14,9 @@ use std::sync::atomic::{AtomicI32, Ordering};
 
 pub const HARNESS_FD_MIN: i32 = 200;
 pub const NOFILE: u64 = 256;
-pub const STEP_BUDGET_PER_OP: usize = 20_000;
+// a legitimate walk: 128 link traversals x (a body with two or three `..`, each checked through
+// procfs: ~160 trapped calls) is ~60 000 calls on the emulated backend
+pub const STEP_BUDGET_PER_OP: usize = 200_000;
 
 // ------------------------------------------------------------ configuration
 
